@@ -53,6 +53,9 @@ PROPS = {
 }
 
 # engines whose test binary re-executes exactly one recorded case when VERIF_REPLAY is set
+# properties with a second engine contributing to the same check (same VERIF_PROP)
+EXTRA_ENGINES = {"C13": [("netwalk", 2)]}
+
 DIRECT_REPLAY = {"C01", "C02", "C03", "C04", "C08", "C13", "C05", "C06", "C07", "C18", "C15", "C11", "C12"}
 
 LEVEL = "model_checking"
@@ -127,8 +130,8 @@ def build(engine, overlay=None, out=None, race=False):
     return out
 
 
-def run_shards(binary, prop, tier, nshards, deadline, seed, replay=None, extra_env=None, test="TestCheck"):
-    outdir = os.path.join(BUILD, "out", prop)
+def run_shards(binary, prop, tier, nshards, deadline, seed, replay=None, extra_env=None, test="TestCheck", outdir_suffix=""):
+    outdir = os.path.join(BUILD, "out", prop + outdir_suffix)
     shutil.rmtree(outdir, ignore_errors=True)
     os.makedirs(outdir)
     procs = []
@@ -375,6 +378,13 @@ def check(prop, tier, replay=None):
         reports, errors = run_shards(binary, prop, tier, nshards, deadline, seed, extra_env=extra)
     else:
         reports, errors = run_shards(binary, prop, tier, nshards, deadline, seed, replay=replay)
+    for xengine, xshards in EXTRA_ENGINES.get(prop, []):
+        if replay:
+            break
+        xbin = build(xengine, overlay=overlay, out=os.path.join(BUILD, xengine + tag + ".test") if tag else None)
+        xr, xe = run_shards(xbin, prop, tier, xshards, deadline, seed, outdir_suffix="." + xengine)
+        reports += xr
+        errors += xe
     if prop == "C15" and not replay:
         r, e = race_pass(prop, tier, overlay, tag)
         reports.append(r)
